@@ -32,6 +32,9 @@ UNITS = [
     "src/orange/surf/Involute.cc",
     "src/orange/surf/detail/SurfaceTransformer.cc",
     "src/orange/surf/SurfaceSimplifier.cc",
+    # instantiates calc_sense / calc_intersections / calc_normal of every surface class and
+    # axis (LocalSurfaceVisitor inside the ORANGE tracker): C12.7-ray-consistency
+    "src/orange/RaytraceImager.cc",
 ]
 
 
@@ -219,6 +222,7 @@ def run(db, cx):
     sphere_conversion(db, cx)
     cyl_conversion(db, cx)
     cone_conversion(db, cx)
+    ray_consistency(db, cx)
 
 
 def fmt(form):
@@ -686,3 +690,313 @@ def cone_conversion(db, cx):
               "compared: %s" % "; ".join("(%r, %r)" % (p_[0], p_[1]) for p_ in compared if len(p_) == 2)[:300],
               short(f.loc),
               why="with another constant a hyperboloid is accepted as a cone (or a cone rejected)")
+
+
+# ------------------------------------------------------------------------------------------
+# C12.7-ray-consistency (A6): sense function, ray equation and normal of the quadric surfaces
+# ------------------------------------------------------------------------------------------
+# class, templated on an axis, degree of the implicit function in pos
+RAY_SURFACES = (("PlaneAligned", True, 1), ("Plane", False, 1), ("SphereCentered", False, 2),
+                ("Sphere", False, 2), ("CylCentered", True, 2), ("CylAligned", True, 2),
+                ("ConeAligned", True, 2), ("SimpleQuadric", False, 2), ("GeneralQuadric", False, 2))
+RAY_INSTANTIATIONS = 17     # 5 classes + 4 templates x 3 axes, confirmed by hand
+
+# Entry points of detail::QuadraticSolver (src/orange/surf/detail/QuadraticSolver.hh), read by
+# hand.  Each one returns the positive roots in t of
+#   solve_general(a, half_b, c, state):   a t^2 + 2 half_b t + c = 0   (state on: c is not read,
+#                                          the root t = 0 is dropped:   a t + 2 half_b = 0)
+#   QuadraticSolver(a, half_b)(c):         t^2 + 2 (half_b/a) t + c/a = 0, the same equation
+#   QuadraticSolver(a, half_b)():          t = -2 half_b / a, i.e. a t^2 + 2 half_b t = 0 (c = 0)
+#   solve_along_surface(half_b, c):        2 half_b t + c = 0   (a = 0)
+# There is no entry point with an implicit a = 1 in this version; the spheres pass
+# real_type(1) for a, the cylinders 1 - dir[T]^2, both relying on |dir| = 1.
+
+
+def ray_consistency(db, cx):
+    """C12.7-ray-consistency.  For every quadric surface class (and axis instantiation):
+    (a) calc_sense(pos) = real_to_sense(F(pos)) for a polynomial F in pos and the member symbols;
+    (b) the coefficients handed to the quadratic solver by calc_intersections(pos, dir, state)
+        are those of F(pos + t dir) = a t^2 + 2 half_b t + c (planes: distance = -F(pos)/(dF/dt));
+    (c) the vector calc_normal(pos) normalises (or returns) is a positive multiple of grad F.
+    All three as polynomial identities over symbolic members, pos = (x, y, z), dir = (u, v, w)."""
+    from polyinterp import (Poly, FieldInterp, Quot, Return, as_poly, fork_paths, poly_subs, poly_diff,
+                            poly_coeffs, poly_degree, poly_reduce, poly_symbols)
+    RULE = "C12.7-ray-consistency"
+    QS = C + "detail::QuadraticSolver::"
+    PX = [Poly.sym(s_) for s_ in "xyz"]
+    DX = [Poly.sym(s_) for s_ in "uvw"]
+    NONE = ("none",)
+    en = db.enums.get(C + "SurfaceState")
+    cx.require(en, "enum SurfaceState not found")
+    states = dict((e_["n"], int(e_["v"])) for e_ in en["enumerators"])
+    cx.require(set(states) == {"off", "on"}, "SurfaceState is not {off, on}: %s" % sorted(states))
+    for nm in ("solve_general", "solve_along_surface", "QuadraticSolver", "operator()"):
+        cx.require(db.get(QS + nm), "anchor QuadraticSolver::%s not found" % nm)
+    cx.require(len(db.get(QS + "operator()")) == 2, "QuadraticSolver has other call operators than (c) and ()")
+
+    def unit_reduce(p):
+        return poly_reduce(p, "w", Poly.const(1) - DX[0] * DX[0] - DX[1] * DX[1])
+
+    def vote(pairs):
+        """The constant k that most monomials of the expected polynomials are scaled by."""
+        tally = {}
+        for g, w in pairs:
+            for m, cw in w.t.items():
+                if m in g.t:
+                    r = g.t[m] / cw
+                    tally[r] = tally.get(r, 0) + 1
+        if not tally:
+            return Fraction(1)
+        best = max(tally.values())
+        cands = [r for r, n_ in tally.items() if n_ == best]
+        return Fraction(1) if Fraction(1) in cands else sorted(cands, reverse=True)[0]
+
+    def compare(pairs):
+        """pairs: [(label, got, want)].  -> (ok, k, modulo_unit, residuals[(label, poly)])"""
+        last = None
+        for modulo in (False, True):
+            pp = [(lab, unit_reduce(g) if modulo else g, unit_reduce(w) if modulo else w)
+                  for lab, g, w in pairs]
+            k = vote([(g, w) for _l, g, w in pp])
+            res = [(lab, g - w * Poly.const(k)) for lab, g, w in pp]
+            ok = k > 0 and all(r == Poly() for _l, r in res)
+            if ok:
+                return True, k, modulo, res
+            if last is None:
+                last = (False, k, modulo, res)
+        return last
+
+    def unwrap(v):
+        while (isinstance(v, list) and len(v) == 1 and isinstance(v[0], tuple) and v[0]
+               and v[0][0] in ("roots", "unit", "sense", "construct")) or \
+                (isinstance(v, tuple) and v and v[0] == "construct" and len(v[2]) == 1):
+            v = v[0] if isinstance(v, list) else v[2][0]
+        return v
+
+    def bind(f, vals):
+        env = {}
+        for prm, v in zip(f.r["params"], vals):
+            if prm["n"]:
+                env[prm["n"]] = list(v) if isinstance(v, list) else v
+        return env
+
+    def run_straight(f, acc, env, fields):
+        it = FieldInterp(f, acc, fields)
+        it.env.update(env)
+        try:
+            it.run(f.r["ast"])
+        except Return as r:
+            return r.v
+        return None
+
+    def as_quot(v):
+        if isinstance(v, Quot):
+            return v.num, v.den
+        v = as_poly(v)
+        low = {}
+        for mono in v.t:
+            for s_, pw in mono:
+                if pw < 0:
+                    low[s_] = min(low.get(s_, 0), pw)
+        den = Poly.const(1)
+        for s_, pw in sorted(low.items()):
+            den = den * Poly({((s_, -pw),): Fraction(1)})
+        return v * den, den
+
+    n_inst = 0
+    used_unit = []
+    for cls, templated, degree in RAY_SURFACES:
+        groups = {}
+        for meth in ("calc_sense", "calc_intersections", "calc_normal"):
+            for f in db.get(C + cls + "::" + meth):
+                if "ast" in f.r:
+                    groups.setdefault(f.inst.rsplit("::", 1)[0], {}).setdefault(meth, []).append(f)
+        cx.require(groups, "anchor %s::calc_sense/calc_intersections/calc_normal (AST) not found" % cls)
+        if templated:
+            axes = sorted(set(re.findall(r"Axis::([xyz])>", " ".join(groups))))
+            cx.require(axes == ["x", "y", "z"], "%s is not instantiated for the three axes: %s" % (cls, sorted(groups)))
+        for key in sorted(groups):
+            g = groups[key]
+            m = re.search(r"Axis::([xyz])>", key)
+            tag = cls + ("<%s>" % m.group(1) if m else "")
+            for meth in ("calc_sense", "calc_intersections", "calc_normal"):
+                cx.require(meth in g, "%s::%s is not instantiated in the analysed units" % (tag, meth))
+            fs = g["calc_sense"][0]
+            fi = g["calc_intersections"][0]
+            with_pos = [f for f in g["calc_normal"] if len(f.r["params"]) == 1]
+            no_arg = [f for f in g["calc_normal"] if not f.r["params"]]
+            cx.require(with_pos, "%s::calc_normal(pos) not found" % tag)
+            fn = with_pos[0]
+            cx.require(len(fs.r["params"]) == 1 and len(fi.r["params"]) == 3,
+                       "%s: calc_sense(pos) / calc_intersections(pos, dir, state) have other parameters" % tag)
+            n_inst += 1
+            fields = {}
+            try:
+                # ---------------------------------------------------------------- (a) sense
+                seen = []
+
+                def to_sense(args):
+                    seen.append(args[0])
+                    return ("sense", len(seen) - 1)
+                val = unwrap(run_straight(fs, {C + "real_to_sense": to_sense}, bind(fs, [PX]), fields))
+                if not (isinstance(val, tuple) and val[0] == "sense" and len(seen) == 1):
+                    raise OutOfVocabulary("calc_sense does not return real_to_sense(<expression>): %r" % (val,))
+                if isinstance(seen[0], (Quot, list, tuple)):
+                    raise OutOfVocabulary("calc_sense hands a non-polynomial to real_to_sense: %r" % (seen[0],))
+                F = as_poly(seen[0])
+                if any(pw < 0 for mono in F.t for _s, pw in mono):
+                    raise OutOfVocabulary("calc_sense divides by a symbol: %r" % (F,))
+                deg = poly_degree(F, set("xyz"))
+                cx.ob(RULE, "%s: calc_sense is the sign of a polynomial F(pos) of degree %d" % (tag, degree),
+                      deg == degree, "F(x,y,z) = %r  (degree %d in pos)" % (F, deg), short(fs.r["ast"]["loc"]),
+                      why="the surface is the zero set of F; the ray equation and the normal below are "
+                          "derived from this F, so a sense function of another shape is another surface")
+                line = poly_subs(F, {"x": PX[0] + Poly.sym("t") * DX[0], "y": PX[1] + Poly.sym("t") * DX[1],
+                                     "z": PX[2] + Poly.sym("t") * DX[2]})
+                co = poly_coeffs(line, "t")
+                if any(pw > 2 for pw in co):
+                    raise OutOfVocabulary("F(pos + t dir) has degree %d in t: not a quadric" % max(co))
+                want = [co.get(i, Poly()) for i in (2, 1, 0)]          # a, 2 half_b, c
+                grad = [poly_diff(F, s_) for s_ in "xyz"]
+
+                # ---------------------------------------------------------- (b) intersections
+                bad = []
+                notes = []
+                for sname in ("off", "on"):
+                    percall = []
+                    cur = {}
+
+                    def solver_obj(cargs, args, n):
+                        if len(cargs) != 2 or len(args) > 1:
+                            raise OutOfVocabulary("QuadraticSolver(a, half_b)(c) called with other arguments")
+                        cur["calls"].append({"a": cargs[0], "hb": cargs[1], "c": args[0] if args else None,
+                                             "form": "QuadraticSolver(a, half_b)(%s)" % ("c" if args else ""),
+                                             "loc": short(n.get("loc", ""))})
+                        return ("roots", len(cur["calls"]) - 1)
+
+                    def solve_general(args):
+                        if len(args) != 4 or args[3] not in (0, 1):
+                            raise OutOfVocabulary("solve_general with other arguments: %r" % (args,))
+                        if args[3] != states[sname]:
+                            raise OutOfVocabulary("solve_general is not given the caller's surface state")
+                        cur["calls"].append({"a": args[0], "hb": args[1],
+                                             "c": args[2] if sname == "off" else None,
+                                             "form": "solve_general(a, half_b, c, %s)" % sname, "loc": ""})
+                        return ("roots", len(cur["calls"]) - 1)
+
+                    def solve_along(args):
+                        cur["calls"].append({"a": Poly(), "hb": args[0], "c": args[1],
+                                             "form": "solve_along_surface(half_b, c)", "loc": ""})
+                        return ("roots", len(cur["calls"]) - 1)
+
+                    def mk(hook):
+                        cur["calls"] = []
+                        percall.append(cur["calls"])
+                        it = FieldInterp(fi, {"call:" + QS + "QuadraticSolver": solver_obj,
+                                              QS + "solve_general": solve_general,
+                                              QS + "solve_along_surface": solve_along,
+                                              C + "no_intersection": NONE,
+                                              C + "Tolerance::sqrt_quadratic": Poly.sym("tol"),
+                                              "assume": hook}, fields)
+                        it.env.update(bind(fi, [PX, DX, states[sname]]))
+                        return it
+                    paths = fork_paths(mk, fi.r["ast"])
+                    results = 0
+                    for (taken, val), calls in zip(paths, percall):
+                        val = unwrap(val)
+                        if isinstance(val, tuple) and val[0] == "roots":
+                            call = calls[val[1]]
+                            if any(isinstance(call[k_], (Quot, list, tuple)) for k_ in ("a", "hb", "c")):
+                                raise OutOfVocabulary("non-polynomial solver argument in %s" % call["form"])
+                            results += 1
+                            pairs = [("a - (1/2) d2F/dt2", as_poly(call["a"]), want[0]),
+                                     ("2*half_b - dF/dt", as_poly(call["hb"]) * Poly.const(2), want[1])]
+                            if sname == "off":
+                                if call["c"] is None:
+                                    bad.append("state off, %s %s: the constant term c = F(pos) is not passed "
+                                               "although the point is not on the surface" % (call["form"], call["loc"]))
+                                    continue
+                                pairs.append(("c - F(pos)", as_poly(call["c"]), want[2]))
+                            ok, k, modulo, res = compare(pairs)
+                            if ok:
+                                if modulo:
+                                    used_unit.append(tag)
+                                notes.append("state %s: %s matches%s%s" % (
+                                    sname, call["form"], " with common factor %s" % k if k != 1 else "",
+                                    " modulo u^2+v^2+w^2 = 1" if modulo else ""))
+                            else:
+                                bad.append("state %s, %s %s: %s%s" % (
+                                    sname, call["form"], call["loc"],
+                                    "; ".join("%s = %r" % (lab, r) for lab, r in res if r != Poly()) or
+                                    "common factor %s is not positive" % k,
+                                    " (common factor %s)" % k if k != 1 else ""))
+                        elif isinstance(val, list) and all(isinstance(x, tuple) and x == NONE for x in val):
+                            continue
+                        elif isinstance(val, list) and len(val) == 1 and isinstance(val[0], (Poly, Quot)):
+                            if want[0] != Poly():
+                                raise OutOfVocabulary("%s returns a distance computed without the quadratic solver "
+                                                      "although F(pos + t dir) is quadratic in t" % tag)
+                            results += 1
+                            num, den = as_quot(val[0])
+                            resid = num * want[1] + den * want[2]
+                            if den == Poly() or resid != Poly():
+                                bad.append("state %s: distance = (%r) / (%r) but -F(pos)/(dF/dt) = -(%r) / (%r); "
+                                           "num*dF/dt + den*F(pos) = %r" % (sname, num, den, want[2], want[1], resid))
+                            else:
+                                notes.append("state %s: distance = (%r) / (%r)" % (sname, num, den))
+                        else:
+                            raise OutOfVocabulary("%s::calc_intersections returns %r" % (tag, val))
+                    if results == 0 and (sname == "off" or degree == 2):
+                        bad.append("state %s: no path reaches the solver (every path returns no_intersection)" % sname)
+                what = ("%s: coefficients of the ray equation are those of F(pos + t dir)" % tag) if degree == 2 else \
+                    ("%s: the intersection distance is -F(pos) / (dF/dt) along the ray" % tag)
+                cx.ob(RULE, what + " (up to one common positive constant factor)", not bad,
+                      (" | ".join(bad) if bad else "; ".join(sorted(set(notes))))[:900], short(fi.r["ast"]["loc"]),
+                      why="the distances returned must be the roots of F(pos + t dir) = 0 for the F whose sign "
+                          "is the sense: with other coefficients the track is moved to a point where the "
+                          "sense does not change, or misses the surface")
+
+                # ------------------------------------------------------------------- (c) normal
+                def inner_normal(args):
+                    if args or not no_arg:
+                        raise OutOfVocabulary("%s::calc_normal overload" % tag)
+                    return run_straight(no_arg[0], nacc, {}, fields)
+                nacc = {C + "make_unit_vector": lambda args: ("unit", args[0]),
+                        C + cls + "::calc_normal": inner_normal}
+                val = unwrap(run_straight(fn, nacc, bind(fn, [PX]), fields))
+                normalised = isinstance(val, tuple) and val[0] == "unit"
+                vec = val[1] if normalised else val
+                if not (isinstance(vec, list) and len(vec) == 3) or \
+                        any(isinstance(x, (Quot, list, tuple)) for x in vec):
+                    raise OutOfVocabulary("%s::calc_normal returns %r" % (tag, val))
+                vec = [as_poly(x) for x in vec]
+                if any(pw < 0 for x in vec for mono in x.t for _s, pw in mono):
+                    raise OutOfVocabulary("%s::calc_normal divides by a symbol (sign of the factor unknown)" % tag)
+                if not normalised:
+                    cx.assume("%s::calc_normal returns a stored vector without normalising it: unit length is "
+                              "the constructor's (debug-asserted) precondition, only the direction is decided" % tag)
+                k = vote(list(zip(vec, grad)))
+                res = [vec[i] - grad[i] * Poly.const(k) for i in range(3)]
+                ok = k > 0 and all(r == Poly() for r in res) and any(gr != Poly() for gr in grad)
+                if ok:
+                    d = "normal%s = (%s) = %s * grad F" % (" before normalisation" if normalised else "",
+                                                          ", ".join(repr(x) for x in vec), k)
+                else:
+                    d = "normal = (%s), grad F = (%s); normal - %s*grad F = (%s)" % (
+                        ", ".join(repr(x) for x in vec), ", ".join(repr(x) for x in grad), k,
+                        ", ".join(repr(r) for r in res))
+                cx.ob(RULE, "%s: calc_normal is a positive multiple of grad F (one common positive constant factor)"
+                      % tag, ok, d[:900], short(fn.r["ast"]["loc"]),
+                      why="the outward normal is the direction in which the sense function increases: any other "
+                          "vector makes the crossing test (dir . normal) disagree with the change of sense")
+            except OutOfVocabulary as ex:
+                raise AnalysisBroken("C12.7: %s is outside the interpreter's vocabulary: %s" % (tag, ex))
+    cx.floor("surface instantiations interpreted (sense, ray equation, normal)", n_inst, RAY_INSTANTIATIONS)
+    cx.assume("real_to_sense(v) is the sign of v (v > 0: outside); QuadraticSolver returns the positive roots of "
+              "a t^2 + 2 half_b t + c = 0 (entry points read by hand, see rules/C12.py; that every exit "
+              "depends on a / half_b is C12.5)")
+    if used_unit:
+        cx.assume("the direction handed to calc_intersections is a unit vector, u^2 + v^2 + w^2 = 1 (needed for "
+                  "the leading coefficient of: %s)" % ", ".join(sorted(set(used_unit))))
+    cx.assume("C12.7 decides the coefficients, not the guards: early `no_intersection` exits (a below tolerance, "
+              "n.dir == 0, dist <= 0) and floating-point round-off are not examined")
